@@ -81,7 +81,7 @@ def run(ctx):
                         'mask_password(%r, %r) -> %r, specification: %r' % (text, mask, got, want))
     ctx.cov['evaluations'] += calls
     ctx.cov['distinct_nontrivial'] += len(recs)
-    if len(keys_seen) != 35 or len(rend_seen) != 16:
+    if len(keys_seen) != 35 or len(rend_seen) != 18:
         raise MachineryError('vacuity: %d keys, %d renderings exercised' % (len(keys_seen), len(rend_seen)))
     ctx.stage('mask-replay', messages=len(recs), calls=calls, keys=len(keys_seen), renderings=len(rend_seen))
     ctx.sample({'message': recs[0]})
